@@ -559,6 +559,24 @@ impl C03 {
         add("tall-file rect-erase", "textfile:ans", "", vec![lit(b"\x1b[65535;1Hx\x1b[1;1;"), Part::B, lit(b";"), Part::B, lit(b"$z")]);
         add("tall-file rect-copy", "textfile:ans", "", vec![lit(b"\x1b[65535;1Hx\x1b[1;1;"), Part::B, lit(b";"), Part::B, lit(b";1;2;2;1$v")]);
         add("tall-file margins-then-scroll", "textfile:ans", "", vec![lit(b"\x1b[65535;1Hx\x1b[1;"), Part::B, lit(b"r\x1b[S\x1b[T\x1bD\x1bM")]);
+        // --- XBin headers that declare a picture and bring (almost) no data: width x height from two 16-bit fields. The
+        // header-field class sets one field at a time in files that hold their data; here both are large and the data missing
+        for (wd, ht) in [(80u16, 65535u16), (4096, 65535), (4096, 1000), (1, 65535), (4096, 25)] {
+            for (flags, data) in [(0u8, &b""[..]), (0, b"A\x07"), (1 << 2, b""), (1 << 2, b"\xC3A\x07")] {
+                let mut h = b"XBIN\x1a".to_vec();
+                h.extend(wd.to_le_bytes());
+                h.extend(ht.to_le_bytes());
+                h.push(16);
+                h.push(flags);
+                h.extend_from_slice(data);
+                add(&format!("file-xbin-bare-header {wd}x{ht} flags {flags} data {}", data.len()), "file:xb", "", vec![lit(&h)]);
+            }
+        }
+        // --- a macro defined under a huge id, then the functions that walk the macro table: checksum report, macro space
+        // report, invocation of another id, reset
+        add("macro-huge-id-then-checksum", "stream", "", vec![lit(b"\x1bP"), Part::B, lit(b";0;0!zx\x1b\\\x1b[?63;7n")]);
+        add("macro-huge-id-then-space-report", "stream", "", vec![lit(b"\x1bP"), Part::B, lit(b";0;0!zx\x1b\\\x1b[?62n\x1b[5*z")]);
+        add("macro-huge-id-then-delete-all", "stream", "", vec![lit(b"\x1bP"), Part::B, lit(b";0;0!zx\x1b\\\x1bP1;1;0!zy\x1b\\\x1bc")]);
         self.specials = v;
     }
 }
